@@ -76,6 +76,16 @@ func (e *Engine) VerifyFunc(full string) *FuncResult {
 				e.assume(st, tb.Neq(args[0].T[0], tb.Int(0)))
 			}
 		}
+		if ct == nil {
+			// safety-only verification of a function without contract: pointer and interface parameters are present (non-nil)
+			for i := range names {
+				switch typs[i].Underlying().(type) {
+				case *types.Pointer, *types.Interface:
+					e.assume(st, tb.Neq(args[i].T[0], tb.Int(0)))
+					e.Assumed["functions verified without contract (safety only): pointer/interface parameters are non-nil"] = true
+				}
+			}
+		}
 		var pkg *types.Package
 		if ct != nil {
 			pkg = e.specPkg(ct)
